@@ -227,7 +227,7 @@ pub fn build(mut rvas: &[u32], mut types: &[u8]) -> Vec<u8> {
 
 		// Figure the number of rvas to fit in this block
 		let mut n = 0;
-		while n < rvas.len() && rvas[n] >= start && rvas[n] < end {
+		while n < rvas.len() && rvas[n] >= start && rvas[n] <= end {
 			n += 1;
 		}
 
